@@ -1244,6 +1244,7 @@ impl Point {
 
     /// Given integers k and e, with k < r and e < 2^127 - 2, returns
     /// round(k*e/r).
+    #[cfg_attr(pornin_crrl_verif_cut, inline(never))]
     fn mul_divr_rounded(k: &Zu256, e: &Zu128) -> Zu128 {
         // z <- k*e
         let mut z = k.mul256x128(e);
